@@ -519,7 +519,7 @@ func wireDecodeMain(rc *RunCtx) {
 		a1 := heapAllocBytes()
 		cons := cr.BytesConsumed() - r.Buffered() - pos
 		frameLen := 4 + int64(f.announce)
-		rc.Tracef("Read frame %d (%s id=%d announced=%d) -> %T err=%v consumed=%d alloc=%d", i, f.kind, f.id, f.announce, m, err, cons, a1-a0)
+		rc.Tracef("Read frame %d (%s id=%d announced=%d) -> %T err=%v consumed=%d", i, f.kind, f.id, f.announce, m, err, cons)
 		if m == nil && err == nil {
 			rc.Fail("C04", "nil-nil", fmt.Sprintf("id%d", f.id), "Read returned no message and no error for a %s frame, id %d, announced length %d", f.kind, f.id, f.announce)
 			return
